@@ -9,6 +9,8 @@
 #include <limits>
 #include <random>
 
+#include <tapkee/defines/verif.hpp>
+
 namespace tapkee
 {
 
@@ -55,9 +57,13 @@ inline ScalarType gaussian_random()
 
 template <class RAI> inline void random_shuffle(RAI first, RAI last)
 {
+#ifdef TAPKEE_VERIF
+    std::shuffle(first, last, tapkee::verif::shuffle_engine());
+#else
     std::random_device rng;
     std::mt19937 urng(rng());
     std::shuffle(first, last, urng);
+#endif
 }
 
 } // namespace tapkee
